@@ -425,3 +425,183 @@ def cli_candidates(tier, rng):
                        entry_params(["int"] * 7)],
         "status": [("status_%d" % (40 + d0), "func main() -> int { print(%d); %d }\n" % (5 + d0, 40 + d0), None, ["status"])],
     }
+
+
+# ---- peak probes: one instruction class at the unique deepest point of the run ----------------------
+# A push is observable at the stack limit only where it sets a new running maximum of sp (at every
+# smaller size an earlier instruction reports the limit first).  Each program below puts one
+# construct at such a point: `probe` is the deepest frame and its body pushes almost nothing.
+
+EXC_NAMES = ("division_by_zero", "wrong_array_size", "index_out_of_bounds", "invalid_domain", "nil_pointer", "ffi_fail")
+
+
+def _probe_params(k):
+    return "".join(", k%d : int" % i for i in range(k)), "".join(", %d" % (i + 4) for i in range(k))
+
+
+def exc_typed(k, before=(), after=(), catch_all=False, value=7):
+    """probe(r, k ints) faults in `r.x` on nil after ONE temporary; typed clauses: `before` (not matching),
+    nil_pointer, `after`; optional catch-all.  Handler entry (CLEAR_STACK; INT; PUSH_EXCEPT) is the peak."""
+    ps, as_ = _probe_params(k)
+    clauses = "".join("catch (%s)\n{\n    %d\n}\n" % (n, 100 + i) for i, n in enumerate(before))
+    clauses += "catch (nil_pointer)\n{\n    %d\n}\n" % value
+    clauses += "".join("catch (%s)\n{\n    %d\n}\n" % (n, 200 + i) for i, n in enumerate(after))
+    if catch_all:
+        clauses += "catch\n{\n    300\n}\n"
+    src = ("record R { x : int; }\n\nfunc probe(r : R%s) -> int\n{\n    r.x\n}\n%s\n"
+           "func main() -> int\n{\n    var r = R(1);\n    r = nil;\n    print(probe(r%s));\n    0\n}\n" % (ps, clauses, as_))
+    return ("peak_exc_typed_k%d_b%d_a%d%s" % (k, len(before), len(after), "_all" if catch_all else ""), src, None,
+            ["peak", "exception", "push_except"])
+
+
+def exc_catch_all(k):
+    ps, as_ = _probe_params(k)
+    src = ("record R { x : int; }\n\nfunc probe(r : R%s) -> int\n{\n    r.x\n}\ncatch\n{\n    7\n}\n\n"
+           "func main() -> int\n{\n    var r = R(1);\n    r = nil;\n    print(probe(r%s));\n    0\n}\n" % (ps, as_))
+    return ("peak_exc_catchall_k%d" % k, src, None, ["peak", "exception", "clear_stack"])
+
+
+def exc_unmatched_then_all(k):
+    """typed clauses that do not match, then the catch-all: PUSH_EXCEPT runs, the clause body does not"""
+    ps, as_ = _probe_params(k)
+    src = ("record R { x : int; }\n\nfunc probe(r : R%s) -> int\n{\n    r.x\n}\ncatch (division_by_zero)\n{\n    1\n}\n"
+           "catch (index_out_of_bounds)\n{\n    2\n}\ncatch\n{\n    9\n}\n\n"
+           "func main() -> int\n{\n    var r = R(1);\n    r = nil;\n    print(probe(r%s));\n    0\n}\n" % (ps, as_))
+    return ("peak_exc_unmatched_all_k%d" % k, src, None, ["peak", "exception", "push_except"])
+
+
+def exc_rethrow_chain(depth, k):
+    """the deepest function faults and has a typed clause that does not match (PUSH_EXCEPT at the peak, then
+    RETHROW); every caller up the chain has one too; main's clause matches"""
+    ps, as_ = _probe_params(k)
+    src = "record R { x : int; }\n\nfunc f0(r : R%s) -> int\n{\n    r.x\n}\ncatch (division_by_zero)\n{\n    50\n}\n\n" % ps
+    for d in range(1, depth):
+        src += "func f%d(r : R) -> int\n{\n    f%d(r%s)\n}\ncatch (%s)\n{\n    %d\n}\n\n" % (
+            d, d - 1, as_ if d == 1 else "", EXC_NAMES[(d + 1) % 4], 50 + d)
+    call = "f%d(r%s)" % (depth - 1, as_ if depth == 1 else "")
+    src += ("func top(r : R) -> int\n{\n    %s\n}\ncatch (nil_pointer)\n{\n    77\n}\n\n"
+            "func main() -> int\n{\n    var r = R(1);\n    r = nil;\n    print(top(r));\n    0\n}\n" % call)
+    return ("peak_exc_rethrow_d%d_k%d" % (depth, k), src, None, ["peak", "exception", "push_except", "rethrow"])
+
+
+def exc_nested_handler(k):
+    """the handler of probe faults again (r.x in the clause body): the second exception goes to the caller's handler"""
+    ps, as_ = _probe_params(k)
+    src = ("record R { x : int; }\n\nfunc probe(r : R%s) -> int\n{\n    r.x\n}\ncatch (nil_pointer)\n{\n    r.x\n}\n\n"
+           "func outer(r : R) -> int\n{\n    probe(r%s)\n}\ncatch (nil_pointer)\n{\n    5\n}\n\n"
+           "func main() -> int\n{\n    var r = R(1);\n    r = nil;\n    print(outer(r));\n    0\n}\n" % (ps, as_))
+    return ("peak_exc_nested_k%d" % k, src, None, ["peak", "exception", "push_except"])
+
+
+def exc_unhandled_typed(k):
+    """no clause matches anywhere: PUSH_EXCEPT at the peak, then the run ends with the unhandled exception"""
+    ps, as_ = _probe_params(k)
+    src = ("record R { x : int; }\n\nfunc probe(r : R%s) -> int\n{\n    r.x\n}\ncatch (division_by_zero)\n{\n    1\n}\n\n"
+           "func main() -> int\n{\n    var r = R(1);\n    r = nil;\n    print(probe(r%s));\n    0\n}\n" % (ps, as_))
+    return ("peak_exc_unhandled_k%d" % k, src, None, ["peak", "exception", "push_except"])
+
+
+def exc_closure_handler(k):
+    """typed handler in a nested function (its frame starts with ALLOC/COPYGLOB slots)"""
+    ps, as_ = _probe_params(k)
+    src = ("record R { x : int; }\n\nfunc outer(r : R) -> int\n{\n    func probe(q : R%s) -> int\n    {\n        q.x\n    }\n"
+           "    catch (nil_pointer)\n    {\n        8\n    };\n    probe(r%s)\n}\n\n"
+           "func main() -> int\n{\n    var r = R(1);\n    r = nil;\n    print(outer(r));\n    0\n}\n" % (ps, as_))
+    return ("peak_exc_closure_k%d" % k, src, None, ["peak", "exception", "push_except", "closure"])
+
+
+LITERALS = [("int", "41"), ("long", "41L"), ("float", "2.5"), ("double", "2.5d"), ("char", "'c'"), ("string", "\"s\""),
+            ("c_ptr", "c_null"), ("bool", "true")]
+
+
+def peak_literal(ty, lit, k):
+    """probe's body is one literal: its push is the deepest point"""
+    ps, as_ = _probe_params(k)
+    ps, as_ = ps[2:], as_[2:]
+    show = {"int": "print(probe(%s))", "long": "printl(probe(%s))", "float": "printf(probe(%s))", "double": "printd(probe(%s))",
+            "char": "printc(probe(%s))", "string": "prints(probe(%s))", "bool": "print(probe(%s) ? 1 : 0)"}.get(ty)
+    use = (show % as_) if show else "let p = probe(%s)" % as_
+    src = "func probe(%s) -> %s\n{\n    %s\n}\n\nfunc main() -> int\n{\n    %s;\n    0\n}\n" % (ps, ty, lit, use)
+    return ("peak_lit_%s_k%d" % (ty, k), src, None, ["peak", "literal"])
+
+
+def peak_nil_record(k):
+    ps, as_ = _probe_params(k)
+    src = ("record R { x : int; }\n\nfunc probe(%s) -> R\n{\n    nil\n}\n\nfunc main() -> int\n{\n    let r = probe(%s);\n"
+           "    print(r == nil ? 1 : 0);\n    0\n}\n" % (ps[2:], as_[2:]))
+    return ("peak_nil_record_k%d" % k, src, None, ["peak", "nil"])
+
+
+def peak_global(k):
+    ps, as_ = _probe_params(k)
+    src = "let g = 17;\n\nfunc probe(%s) -> int\n{\n    g\n}\n\nfunc main() -> int\n{\n    print(probe(%s));\n    0\n}\n" % (ps[2:], as_[2:])
+    return ("peak_global_k%d" % k, src, None, ["peak", "global"])
+
+
+def peak_closure_entry(k):
+    """probe declares a nested function and returns a literal: ALLOC/COPYGLOB at function entry are the deepest pushes"""
+    ps, as_ = _probe_params(k)
+    src = ("func probe(%s) -> int\n{\n    func inner(a : int) -> int { a };\n    3\n}\n\n"
+           "func main() -> int\n{\n    print(probe(%s));\n    0\n}\n" % (ps[2:], as_[2:]))
+    return ("peak_closure_entry_k%d" % k, src, None, ["peak", "alloc", "copyglob"])
+
+
+def peak_captured(k):
+    """inner reads a variable of the enclosing function at the deepest point (ID_TOP / upvalue access)"""
+    src = ("func outer(v : int) -> int\n{\n    func inner(%s) -> int { v };\n    inner(%s)\n}\n\n"
+           "func main() -> int\n{\n    print(outer(9));\n    0\n}\n" % (_probe_params(k)[0][2:], _probe_params(k)[1][2:]))
+    return ("peak_captured_k%d" % k, src, None, ["peak", "closure"])
+
+
+def peak_builtin(k):
+    """a built-in applied to the deepest operand (built-ins rewrite the top slot)"""
+    src = ("func probe(x : float%s) -> float\n{\n    sqrt(x)\n}\n\nfunc main() -> int\n{\n    printf(probe(16.0%s));\n    0\n}\n"
+           % _probe_params(k))
+    return ("peak_builtin_sqrt_k%d" % k, src, None, ["peak", "builtin"])
+
+
+def peak_string_ops(k):
+    src = ("func probe(s : string%s) -> string\n{\n    s + \"x\"\n}\n\nfunc main() -> int\n{\n    prints(probe(\"ab\"%s) + \"\\n\");\n    0\n}\n"
+           % _probe_params(k))
+    return ("peak_string_cat_k%d" % k, src, None, ["peak", "string"])
+
+
+def peak_read(k):
+    ps, as_ = _probe_params(k)
+    src = "func probe(%s) -> int\n{\n    read()\n}\n\nfunc main() -> int\n{\n    print(probe(%s));\n    0\n}\n" % (ps[2:], as_[2:])
+    return ("peak_read_k%d" % k, src, "12\n", ["peak", "builtin-read"])
+
+
+def peak_dim(k):
+    src = ("func probe(a[D] : int%s) -> int\n{\n    D\n}\n\nfunc main() -> int\n{\n    print(probe([ 1, 2, 3 ] : int%s));\n    0\n}\n"
+           % _probe_params(k))
+    return ("peak_dim_k%d" % k, src, None, ["peak", "array"])
+
+
+def peak_programs(tier, rng):
+    thorough = tier != "quick"
+    ks = [0, 1, 3] if not thorough else [0, 1, 2, 3, 5, 8]
+    P = []
+    for k in ks:
+        P.append(exc_typed(k))
+    P += [exc_typed(1, before=("division_by_zero",)), exc_typed(0, before=("index_out_of_bounds", "invalid_domain"), after=("ffi_fail",)),
+          exc_typed(2, after=("division_by_zero",), catch_all=True),
+          exc_catch_all(0), exc_catch_all(2), exc_unmatched_then_all(1),
+          exc_rethrow_chain(1, 1), exc_rethrow_chain(3, 0), exc_nested_handler(1), exc_unhandled_typed(1), exc_closure_handler(1)]
+    k0 = rng.randint(0, 4)
+    P += [exc_typed(k0, before=tuple(rng.sample(EXC_NAMES[:4], rng.randint(0, 3)))), exc_rethrow_chain(rng.randint(1, 4), rng.randint(0, 3))]
+    for ty, lit in LITERALS:
+        P.append(peak_literal(ty, lit, rng.randint(0, 3)))
+    kk = rng.randint(0, 3)
+    P += [peak_nil_record(kk), peak_global(kk), peak_closure_entry(kk), peak_captured(kk), peak_builtin(kk), peak_string_ops(kk),
+          peak_read(kk), peak_dim(kk)]
+    if thorough:
+        for k in (4, 6):
+            P += [exc_rethrow_chain(k, 2), exc_catch_all(k), exc_nested_handler(k), exc_closure_handler(k)]
+            P += [peak_literal(ty, lit, k) for ty, lit in LITERALS]
+    seen, out = set(), []
+    for p in P:
+        if p[0] not in seen:
+            seen.add(p[0])
+            out.append(p)
+    return out
